@@ -37,7 +37,8 @@ MC_Headers == <<
   H(<<pub, Dir("max-age", 0)>>),
   H(<<pub, Dir("max-age", 1), Dir("max-age", 3)>>),
   [dirs |-> <<pub, Dir("max-age", 3)>>, bad |-> TRUE],
-  H(<<pub, Dir("must-revalidate", NoArg), Dir("foo", NoArg), Dir("max-age", 1)>>)
+  H(<<pub, Dir("must-revalidate", NoArg), Dir("foo", NoArg), Dir("max-age", 1)>>),
+  H(<<pub, Dir("s-maxage", 0), Dir("max-age", 3)>>)
 >>
 \* negative sanity runs take the seeded model bug from the environment
 MC_BugFromEnv == IOEnv.C16_BUG
